@@ -42,7 +42,7 @@ def gen_grid(rng, nsteps):
     return kind, [float(t) for t in ts]
 
 
-def gen_case(rng, *, nmin=1, nmax=6, max_steps=6, noisy=False, scale=1.0):
+def gen_case(rng, *, nmin=1, nmax=6, max_steps=6, noisy=False, scale=1.0, want_delay=False):
     """One run: n atoms, per-atom drives (rows pairwise distinct), U, SLM mask ending inside a
     step, optional initial state. Everything is plain Python / numpy (serialisable)."""
     n = rng.randint(nmin, nmax)
@@ -65,8 +65,16 @@ def gen_case(rng, *, nmin=1, nmax=6, max_steps=6, noisy=False, scale=1.0):
         delta[k][0] += 1e-3 * (k + 1)
         if pmode != "zero":
             phi[k][0] += 1e-3 * (k + 1)
+    # pulse / delay / pulse: one or two laser-off steps (exact zeros in omega AND delta, phi = 0) after the
+    # first pulse — the interaction keeps acting there
+    delay = []
+    if want_delay or (n >= 2 and nsteps >= 3 and rng.random() < 0.2):
+        first = rng.randrange(1, max(2, nsteps - 1))
+        delay = [k for k in range(first, min(nsteps, first + rng.choice([1, 1, 2]))) if k >= 1]
+        for k in delay:
+            omega[k], delta[k], phi[k] = [0.0] * n, [0.0] * n, [0.0] * n
     U = np.zeros((n, n))
-    ustr = rng.choice([0.0, 1.0, 8.0, 40.0]) * scale
+    ustr = (rng.choice([8.0, 40.0]) if delay else rng.choice([0.0, 1.0, 8.0, 40.0])) * scale
     for i in range(n):
         for j in range(i + 1, n):
             U[i, j] = U[j, i] = rng.uniform(0.0, ustr)
@@ -97,7 +105,7 @@ def gen_case(rng, *, nmin=1, nmax=6, max_steps=6, noisy=False, scale=1.0):
         im = [rng.gauss(0, 1) for _ in range(dim)]
         init = (re, im)
     return dict(n=n, nsteps=nsteps, grid_kind=gkind, times=times, omega=omega, delta=delta, phi=phi, pmode=pmode,
-                U=U.tolist(), masked=masked.tolist(), slm_end=float(slm_end), init=init)
+                U=U.tolist(), masked=masked.tolist(), slm_end=float(slm_end), init=init, delay=delay)
 
 
 def build(case, *, lindblad_ops=None):
@@ -126,18 +134,44 @@ def build(case, *, lindblad_ops=None):
     return data, rec
 
 
+def _vec(re, im):
+    v = np.array(re, dtype=float) + 1j * np.array(im, dtype=float)
+    return v / np.linalg.norm(v)
+
+
+def psi0(case):
+    """the initial vector the run starts from: |g…g>, or the user's vector — normalised and then scaled by
+    `init_scale` (the constructor neither rejects nor normalises, and the evolution is linear)"""
+    n = case["n"]
+    if case.get("init") is None:
+        v = np.zeros(2 ** n, dtype=complex)
+        v[0] = 1.0
+        return v
+    return _vec(*case["init"]) * float(case.get("init_scale", 1.0))
+
+
+def rho0(case):
+    """initial density matrix: |g…g><g…g|, the projector of `init`, or the mixture `init_mixed` = [(p, re, im)…]"""
+    if case.get("init_mixed"):
+        d = 2 ** case["n"]
+        r = np.zeros((d, d), dtype=complex)
+        for p, re, im in case["init_mixed"]:
+            v = _vec(re, im)
+            r += p * np.outer(v, v.conj())
+        return r
+    v = psi0(case)
+    return np.outer(v, v.conj())
+
+
 def initial_state(case, noisy=False):
     import torch
-    if case.get("init") is None:
+    if case.get("init") is None and not case.get("init_mixed"):
         return None
-    re, im = case["init"]
-    v = torch.tensor(re, dtype=torch.complex128) + 1j * torch.tensor(im, dtype=torch.complex128)
-    v = v / v.norm()
     if noisy:
         from emu_sv.density_matrix_state import DensityMatrix
-        return DensityMatrix(torch.outer(v, v.conj()), gpu=False)
+        return DensityMatrix(torch.tensor(rho0(case), dtype=torch.complex128), gpu=False)
     from emu_sv.state_vector import StateVector
-    return StateVector(v, gpu=False)
+    return StateVector(torch.tensor(psi0(case), dtype=torch.complex128), gpu=False)
 
 
 # ------------------------------------------------------------------ recorder around the real loop
@@ -153,16 +187,27 @@ class Recorder:
         self.keep = []          # keep tensors alive so ids are not reused
         self.calls = []         # raw argument records (for the oracles)
         self.problems = []
+        self.kernel_calls = [0]   # shared counter, incremented by the wrapped krylov_exp
 
     def _row_of(self, table, arg):
+        """index of the row handed over: by storage position when `arg` is a view into the table (what
+        `table[k]` is — rows need not be distinct), by content otherwise"""
         import torch
+        try:
+            off = arg.data_ptr() - table.data_ptr()
+            stride = table.stride(0) * table.element_size()
+            if stride > 0 and off % stride == 0 and 0 <= off // stride < table.shape[0] \
+                    and arg.shape == table[0].shape and torch.equal(table[off // stride], arg):
+                return int(off // stride)
+        except Exception:
+            pass
         hits = [k for k in range(table.shape[0]) if torch.equal(table[k], arg)]
         return hits[0] if len(hits) == 1 else -1 - len(hits)
 
     def apply(self, dt, omegas, deltas, phis, U, state, tol, lindblads):
         impl = self.impl
         ro, rd, rp = self._row_of(impl.omega, omegas), self._row_of(impl.delta, deltas), self._row_of(impl.phi, phis)
-        if not (ro == rd and (rp == ro or not bool(impl.phi.any()))):
+        if not (ro == rd == rp and ro >= 0):
             self.problems.append(f"rows of omega/delta/phi differ: {ro},{rd},{rp}")
         q = self.rc.queries[-1] if self.rc.queries else (float("nan"), False)
         full, masked = self.rc.full_matrix, self.rc.masked_matrix
@@ -175,7 +220,11 @@ class Recorder:
             h_in = []
             if self.calls:
                 self.problems.append("state handed to the stepper is not the output of the previous step")
+        k0 = self.kernel_calls[0]
         out, ham = self.real.apply(dt, omegas, deltas, phis, U, state, tol, lindblads)
+        if self.kernel_calls[0] - k0 != 1:
+            self.problems.append(f"stepper.apply ran the exponentiation kernel (krylov_exp) {self.kernel_calls[0] - k0} times "
+                                 f"at step {self.cur_idx} (the model's expStep is one exponentiation per step)")
         self.keep += [state, out]
         self.hist[id(out)] = h_in + [ro]
         self.log.append(["s", self.cur_idx, float(dt), ro, q[1], q[0]])
@@ -188,25 +237,42 @@ class Recorder:
         return self.real.get_hamiltonian(**kw)
 
 
-def run_recorded(case, config_kw, *, lindblad_ops=None, noisy=False, observables=None):
+def run_recorded(case, config_kw, *, lindblad_ops=None, noisy=False, observables=None, config=None):
     """Run the real SVBackendImpl with the recorder installed. Returns a dict with `status`
-    (`ok`, `err:index`, `err:zerodiv`, or `raised:<Type>`), the event log, the results …"""
+    (`ok`, `err:index`, `err:zerodiv`), the event log, the results, the config used (pass it back as
+    `config=` to run a second time with the *same* config / initial-state object) and
+    `init_unchanged` (is the caller's initial-state tensor bit-for-bit what it was before the run?)."""
+    import torch
+    from unittest import mock
     from harness import compat
     from emu_sv.sv_backend_impl import SVBackendImpl
+    import emu_sv.time_evolution as te
 
     data, rc = build(case, lindblad_ops=lindblad_ops)
-    kw = dict(config_kw)
-    st0 = initial_state(case, noisy=noisy)
-    if st0 is not None:
-        kw["initial_state"] = st0
-    if observables is not None:
-        kw["observables"] = observables
-    out = dict(log=[], status="ok", problems=[], results=None, impl=None, rec=None, rc=rc, data=data)
+    out = dict(log=[], status="ok", problems=[], results=None, impl=None, rec=None, rc=rc, data=data, config=None,
+               init_unchanged=None)
+    counter = [0]
+    real_krylov = te.krylov_exp
+
+    def counting_krylov(*a, **k):
+        counter[0] += 1
+        return real_krylov(*a, **k)
     try:
-        cfg = compat.sv_config(**kw)
-        impl = SVBackendImpl(cfg, data)
+        if config is None:
+            kw = dict(config_kw)
+            st0 = initial_state(case, noisy=noisy)
+            if st0 is not None:
+                kw["initial_state"] = st0
+            if observables is not None:
+                kw["observables"] = observables
+            config = compat.sv_config(**kw)
+        out["config"] = config
+        user_state = config.initial_state
+        before = user_state.data.clone() if user_state is not None else None
+        impl = SVBackendImpl(config, data)
         log = out["log"]
         rec = Recorder(impl, rc, log)
+        rec.kernel_calls = counter
         impl.stepper = rec
         out["impl"], out["rec"] = impl, rec
 
@@ -226,7 +292,13 @@ def run_recorded(case, config_kw, *, lindblad_ops=None, noisy=False, observables
             return real_ev(dt, step_idx)
 
         impl._apply_observables, impl._is_evaluation_time, impl._evolve_step = obs, is_eval, evolve
-        out["results"] = impl._run()
+        try:
+            with mock.patch.object(te, "krylov_exp", counting_krylov):
+                out["results"] = impl._run()
+        finally:
+            if before is not None:
+                out["init_unchanged"] = bool(before.shape == user_state.data.shape
+                                             and torch.equal(before.view(torch.float64), user_state.data.view(torch.float64)))
         out["final_hist"] = rec.hist.get(id(impl.state.data), [] if not rec.calls else None)
         out["problems"] = rec.problems
     except IndexError:
@@ -407,17 +479,6 @@ def piecewise(case):
         U = case["masked"] if t[k] < case["slm_end"] else case["U"]
         out.append(((t[k + 1] - t[k]) * COEFF, dense_h(case["omega"][k], case["delta"][k], case["phi"][k], U)))
     return out
-
-
-def psi0(case):
-    n = case["n"]
-    if case.get("init") is None:
-        v = np.zeros(2 ** n, dtype=complex)
-        v[0] = 1.0
-        return v
-    re, im = case["init"]
-    v = np.array(re, dtype=float) + 1j * np.array(im, dtype=float)
-    return v / np.linalg.norm(v)
 
 
 def liouvillian(H, jumps):
